@@ -375,6 +375,11 @@ func (b *Builder) fundV2(txn *types.V2Transaction, a *Actor, need types.Currency
 				dup = true
 			}
 		}
+		for _, e := range txn.SiacoinInputs {
+			if e.Parent.ID == in.ID {
+				dup = true
+			}
+		}
 		if dup {
 			continue
 		}
